@@ -200,6 +200,9 @@ func c7menu() []hcall {
 			res, _ := c7all("FI", t, 100000)
 			set := map[string]bool{}
 			for _, x := range res {
+				if x.draws != 2 && x.err == nil && x.panic == "" {
+					return "the draws do not go through the package-level source: not observable"
+				}
 				set[fmt.Sprint(x.dna, x.err, x.panic)] = true
 			}
 			var ks []string
